@@ -1105,6 +1105,8 @@ func (b *batch) emit(op, mut string) {
 		nontrivial = true
 	case "x":
 		nontrivial = res.real != "err"
+	case "d":
+		nontrivial = g[0] == "ok" || (len(g) > 1 && g[1] != "0") || mut == "valid"
 	default:
 		nontrivial = g[0] == "ok" || (len(g) > 1 && g[1] != "0")
 	}
